@@ -179,6 +179,28 @@ wait:
 		r.Violate(class, "operations still blocked 30 simulated seconds after the queue was closed: %s; goroutines:\n  %s", strings.Join(pending, ", "), BlockedSummary())
 	}
 	time.Sleep(2 * time.Second) // let timer goroutines that were stalled by a yield finish
+	// post-condition: once Close has completed and every deadline of the program has long expired, a
+	// receive on the closed queue returns what is still queued and then end-of-stream (not a timeout)
+	if finished == nG && closed {
+		for k := 0; k < 16; k++ {
+			id := h.Invoke(97, qRecv, 0)
+			var v int64
+			var err error
+			if !WithTimeout(r, 10*time.Second, func() { v, err = q.Recv() }) {
+				r.NoLeakCheck = true
+				r.Violate("C17/queue-call-never-returns", "Recv on a closed queue blocks")
+				break
+			}
+			h.Return(id, v, classify(err))
+			if err != nil {
+				r.Obligation(1)
+				if classify(err) != ErrEOF {
+					r.Violate("C17/queue-closed-recv-not-eof", "Recv on a queue whose Close completed seconds ago returned %v instead of end-of-stream", err)
+				}
+				break
+			}
+		}
+	}
 	for _, e := range h.Events() {
 		r.Logf("g%d %s(%d) call=%d ret=%d out=%d err=%d", e.G, qOpNames[e.Op], e.Arg, e.Call, e.Ret, e.Out, e.Err)
 	}
